@@ -1,5 +1,6 @@
 import Mathlib.Tactic
 import MV.Model.Graph
+import MV.Props.C18Reach
 /-!
 # C18 — depth-first traversal (`visit`, `euler`, `preOrder`, `postOrder`)
 
@@ -10,14 +11,7 @@ namespace MV.Graph
 
 /-! ## specification vocabulary -/
 
-/-- every successor id is a node id -/
-def WF (g : G) : Prop := ∀ u < g.size, ∀ v ∈ out g u, v < g.size
-/-- `a → b` is an edge of `g` -/
-def Edge (g : G) (a b : Nat) : Prop := a < g.size ∧ b ∈ out g a
-/-- reflexive-transitive closure of `Edge` -/
-def Path (g : G) : Nat → Nat → Prop := Relation.ReflTransGen (Edge g)
-
-instance (g : G) : Decidable (WF g) := by unfold WF; infer_instance
+-- `WF`, `Edge`, `Path` are shared with MV.Props.C18Reach
 
 /-- well-nested (Dyck) event sequences -/
 inductive Nested : List (Bool × Nat) → Prop
@@ -572,38 +566,38 @@ theorem preOrder_second (g : G) (root w : Nat) (rest : List Nat) (hr : root < g.
 `0 → 1, 2`, `1 → 2`, `2 → 0, 3`, `3` has no successors, `4 → 0` (node 4 is unreachable from 0). -/
 
 /-- example graph -/
-def exG : G := #[[1, 2], [2], [0, 3], [], [0]]
+def exGdfs : G := #[[1, 2], [2], [0, 3], [], [0]]
 
-example : WF exG := by decide
-example : euler exG 0 =
+example : WF exGdfs := by decide
+example : euler exGdfs 0 =
     [(true, 0), (true, 1), (true, 2), (true, 3), (false, 3), (false, 2), (false, 1), (false, 0)] := by
   decide
-example : ∃ inner, euler exG 0 = (true, 0) :: inner ++ [(false, 0)] ∧ Nested inner :=
-  euler_balanced exG 0
-example : Nested (euler exG 0) := euler_nested exG 0
-example : (preOrder exG 0).Nodup := preOrder_nodup exG 0 (by decide) (by decide)
-example : (postOrder exG 0).Nodup := postOrder_nodup exG 0 (by decide) (by decide)
-example : preOrder exG 0 = [0, 1, 2, 3] ∧ postOrder exG 0 = [3, 2, 1, 0] := by decide
-example : (postOrder exG 0).Perm (preOrder exG 0) := post_perm_pre exG 0
-example : (preOrder exG 0).head? = some 0 := preOrder_head exG 0
-example : (postOrder exG 0).getLast? = some 0 := postOrder_last exG 0
-example : (preOrder exG 0)[1]? = some 1 :=
-  preOrder_second exG 0 1 [2] (by decide) (by decide) (by decide)
+example : ∃ inner, euler exGdfs 0 = (true, 0) :: inner ++ [(false, 0)] ∧ Nested inner :=
+  euler_balanced exGdfs 0
+example : Nested (euler exGdfs 0) := euler_nested exGdfs 0
+example : (preOrder exGdfs 0).Nodup := preOrder_nodup exGdfs 0 (by decide) (by decide)
+example : (postOrder exGdfs 0).Nodup := postOrder_nodup exGdfs 0 (by decide) (by decide)
+example : preOrder exGdfs 0 = [0, 1, 2, 3] ∧ postOrder exGdfs 0 = [3, 2, 1, 0] := by decide
+example : (postOrder exGdfs 0).Perm (preOrder exGdfs 0) := post_perm_pre exGdfs 0
+example : (preOrder exGdfs 0).head? = some 0 := preOrder_head exGdfs 0
+example : (postOrder exGdfs 0).getLast? = some 0 := postOrder_last exGdfs 0
+example : (preOrder exGdfs 0)[1]? = some 1 :=
+  preOrder_second exGdfs 0 1 [2] (by decide) (by decide) (by decide)
 /-- soundness used forwards: 3 is visited, hence reachable -/
-example : Path exG 0 3 := mem_preOrder_path exG 0 (by decide) (by decide) 3 (by decide)
+example : Path exGdfs 0 3 := mem_preOrder_path exGdfs 0 (by decide) (by decide) 3 (by decide)
 /-- completeness used backwards: 4 is not visited, hence not reachable from 0 -/
-example : ¬ Path exG 0 4 := by
-  rw [← mem_preOrder_iff exG 0 (by decide) (by decide)]; decide
+example : ¬ Path exGdfs 0 4 := by
+  rw [← mem_preOrder_iff exGdfs 0 (by decide) (by decide)]; decide
 /-- completeness used forwards on a path given edge by edge -/
-example : 3 ∈ preOrder exG 0 :=
-  path_mem_preOrder exG 0 (by decide) (by decide) 3
+example : 3 ∈ preOrder exGdfs 0 :=
+  path_mem_preOrder exGdfs 0 (by decide) (by decide) 3
     (Relation.ReflTransGen.head (b := 2) ⟨by decide, by decide⟩
       (Relation.ReflTransGen.single ⟨by decide, by decide⟩))
-example : 3 ∈ postOrder exG 0 ↔ Path exG 0 3 := mem_postOrder_iff exG 0 (by decide) (by decide) 3
+example : 3 ∈ postOrder exGdfs 0 ↔ Path exGdfs 0 3 := mem_postOrder_iff exGdfs 0 (by decide) (by decide) 3
 /-- well-formedness is needed for F2: an out-of-range successor is never marked, so it is
 entered once per incoming edge -/
 example : ¬ WF #[[5, 5]] ∧ preOrder #[[5, 5]] 0 = [0, 5, 5] := by decide
 /-- from a root that reaches everything (4 → 0 → …) all five nodes are visited -/
-example : preOrder exG 4 = [4, 0, 1, 2, 3] := by decide
+example : preOrder exGdfs 4 = [4, 0, 1, 2, 3] := by decide
 
 end MV.Graph
